@@ -276,3 +276,54 @@ def mon_c01(run):
 
 
 MONITORS['C01'] = [mon_c01]
+
+
+def mon_prompt(run):
+    """a transmission that the inverter answers at once with the complete valid frame completes the request with exactly
+    that frame (C02 end-to-end; also exposes fragments leaking from earlier transmissions, C07)"""
+    v = []
+    sc, tr = run['sc'], run['tracer']
+    if run['hang']: return v
+    reqs = per_request(run)
+    sends = tr.sends
+    for i, (t, raw, req, letter) in enumerate(run['script'].log):
+        if letter != 'N' or req is None or i >= len(sends): continue
+        k = sends[i]['k']
+        if k not in reqs: continue
+        # only when nothing else is still in flight for this transmission: no later letters for the same request
+        later = [j for j in range(i + 1, len(sends)) if sends[j]['k'] == k]
+        out = reqs[k]['done']['out']
+        whole = F.valid_response(req)
+        # only when that frame is the first thing the object received after this transmission (a late datagram of an earlier
+        # transmission legitimately ends the attempt: the wire protocols carry no correlation id)
+        after = [x for x in tr.recvs if x['seq'] > sends[i]['seq']]
+        if not after or after[0]['data'] != whole: continue
+        # ... and no invalid datagram was received for this request before (its deferred handling may hit the retransmission;
+        # no property constrains that)
+        first = min(s['seq'] for s in sends if s['k'] == k)
+        if any(x['verdict'][0] == 'refuse' and first < x['seq'] < sends[i]['seq'] for x in tr.recvs): continue
+        if later or out[0] != 'ok' or out[1] != whole:
+            v.append(('prompt-answer-lost', f'transmission {i} of request {k} was answered at once with the valid frame {whole.hex()} but the request '
+                                            f'{"was transmitted again" if later else "ended with " + repr(out[1])[:80]}'))
+    return v
+
+
+def mon_c03(run):
+    """every frame on the wire parses with the independent decoder; Modbus/TCP transaction ids are non-zero and change with every transmission"""
+    v = []
+    sc, tr = run['sc'], run['tracer']
+    prev = None
+    for s in tr.sends:
+        req = F.parse_req(s['data'])
+        if req is None:
+            v.append(('unparsable-request', f'transmitted frame {s["data"].hex()} is not a well-formed request')); continue
+        if req['kind'] == 'tcp':
+            if req['tx'] == 0 or req['tx'] == prev:
+                v.append(('tx-id', f'Modbus/TCP transmission at {s["t"]} ms carries transaction id {req["tx"]} (previous transmission: {prev}), frame {s["data"].hex()}'))
+            prev = req['tx']
+    return v
+
+
+MONITORS['C02'] = [mon_prompt]
+MONITORS['C03'] = [mon_c03]
+MONITORS['C07'] = MONITORS['C07'] + [mon_prompt]
